@@ -140,11 +140,16 @@ fn bytes_len(len: impl Strategy<Value = usize>) -> impl Strategy<Value = Vec<u8>
 }
 fn host(max: usize) -> impl Strategy<Value = Vec<u8>> {
     let m = max;
-    bytes_len(prop_oneof![
-        4 => prop::sample::select(vec![0usize, 1, 2, 254.min(m), 255.min(m), m]),
-        4 => 0usize..=m,
-        2 => 0usize..=16,
-    ])
+    prop_oneof![
+        10 => bytes_len(prop_oneof![
+            4 => prop::sample::select(vec![0usize, 1, 2, 254.min(m), 255.min(m), m]),
+            4 => 0usize..=m,
+            2 => 0usize..=16,
+        ]),
+        // hosts that mean something to some layer (IP literals in every notation, brackets, ports, case, dots, control characters):
+        // opaque octets to the codec, they must round-trip like any other
+        3 => prop::sample::select(vf_common::host_dictionary()),
+    ]
 }
 fn payload(big: usize) -> impl Strategy<Value = Vec<u8>> {
     bytes_len(prop_oneof![
@@ -596,7 +601,7 @@ pub fn check_eq(c: &EqCase) -> Outcome {
 }
 
 pub fn run(ctx: &Ctx, rep: &mut Report) {
-    rep.rule = "G1: frame specs over all opcodes/constructors with boundary-biased u32/u16 and host/payload lengths; non-trivial = variable field at a boundary \
+    rep.rule = "G1: frame specs over all opcodes/constructors with boundary-biased u32/u16 and host/payload lengths, hosts being random octets or (one in four) entries of a dictionary of 130 hosts that mean something to some layer (IP literals in every notation, bracketed literals, ports, letter case, trailing dots, IDNA, control characters, maximal DNS names), each of which is also enumerated once in every host-carrying frame kind; non-trivial = variable field at a boundary \
                 (host len 0/1/255, payload len 0..=3, vectored with an empty chunk). G2: byte strings (bounded-exhaustive over a boundary alphabet, mutations of valid \
                 encodings, random with biased first byte); non-trivial = within one byte of a length check (dropping/adding one byte flips validity). \
                 Distinct = distinct case value (hash)."
@@ -655,6 +660,35 @@ pub fn run(ctx: &Ctx, rep: &mut Report) {
             let mut o = check_encode(c);
             o.nontrivial = true;
             o.classes.push("payload-64KiB-to-3MiB");
+            o
+        },
+    );
+    // every host of the dictionary of "meaningful" hosts (IP literals in all notations, brackets, ports, case, dots, control
+    // characters, maximal names) in every frame kind that carries a host; payloads that look like hosts or frames too
+    let dict = vf_common::host_dictionary();
+    let nd = dict.len() as u64;
+    ctx.enumerate(
+        rep,
+        "meaningful-hosts",
+        nd * 6,
+        64,
+        move |i| {
+            let host = dict[(i % nd) as usize].clone();
+            let host255: Vec<u8> = host.iter().copied().take(255).collect();
+            let spec = match i / nd {
+                0 => FSpec::Connect { id: 0x0102_0304, rwnd: 64, port: 443, host },
+                1 => FSpec::Bind { id: 5, dgram: false, port: 80, host },
+                2 => FSpec::Bind { id: 5, dgram: true, port: 53, host },
+                3 => FSpec::DatagramBorrowed { id: 6, port: 53, host: host255.clone(), data: host255 },
+                4 => FSpec::DatagramOwned { id: 6, port: 53, host: host255, data: vec![] },
+                _ => FSpec::PushOwned { id: 8, data: host },
+            };
+            EncCase { spec, extra: vec![] }
+        },
+        |c| {
+            let mut o = check_encode(c);
+            o.nontrivial = true;
+            o.classes.push("meaningful-host");
             o
         },
     );
